@@ -181,6 +181,86 @@ def run(chk, tier, seed):
             return evs
         for evs in common.pmap(do_h, list(enumerate(hsel))):
             events += evs
+        # TrackCheck.tla: CRC-valid flux whose decoded track is every sorted sector list of the model (wrong size code, wrong
+        # cylinder/head, duplicate / missing / extra records), on track 1 of a 4-track image with 3 sectors per track
+        rt = common.tlc("TrackCheck", "TrackCheck.cfg", timeout=1800)
+        chk.add_tlc("TrackCheck.cfg", rt)
+        if rt.violated:
+            chk.violation("model:trackcheck:" + rt.violated, "TrackCheck.tla: %s\n%s" % (rt.violated, "\n".join(rt.cex[:20])), dict(spec="TrackCheck.tla"))
+        tcs = sorted({json.dumps(c, sort_keys=True): c for c in rt.cases}.values(), key=lambda c: json.dumps(c, sort_keys=True))
+        def n_wrong(c):
+            return sum(1 for k, x in enumerate(c["secs"]) if x["size"] != 256 or x["cyl"] != 1 or x["head"] != 0)
+        acc = [c for c in tcs if c["accept"]]
+        # one sector wrong in an otherwise acceptable track: all of them, with every command
+        near = [c for c in tcs if not c["accept"] and [x["rec"] for x in c["secs"]] == [0, 1, 2] and n_wrong(c) == 1]
+        for c in acc + near:
+            c["all_cmds"] = True
+        rest = [c for c in tcs if not c["accept"] and not c.get("all_cmds")]
+        rnd.shuffle(rest)
+        tsel = acc + near + rest[: (100 if quick else 8000)]
+        base_img = mkdisc.surface_dfs(12, 8, title=b"TC", total=12, entries=[mkdisc.entry("B", length=200, start=6), mkdisc.entry("A", length=700, start=3)])
+        fcmds = [["cat"], ["type", "A"], ["dump", "A"], ["extract-files", "{DEST}"], ["sector-map"], ["dump-sector", "0", "1", "0"],
+                 ["dump-sector", "0", "1", "1"], ["dump-sector", "0", "1", "2"], ["dump-sector", "0", "1", "3"], ["extract-unused", "{DEST}"]]
+
+        def do_t(ic):
+            i, c = ic
+            fmt = ("hfe-FM", "hxc-MFM", "hfe-MFM")[i % 3]
+            enc = fmt.split("-")[1]
+            tracks = []
+            for t in range(4):
+                if t == 1:
+                    tk = mkflux.Track(enc)
+                    tk.gap(16 if enc == "FM" else 40)
+                    for k, x in enumerate(c["secs"]):
+                        code = {128: 0, 256: 1, 512: 2, 1024: 3}[x["size"]]
+                        tk.field("id", x["rec"], 0xFE, bytes([x["cyl"], x["head"], x["rec"], code]))
+                        tk.gap(11 if enc == "FM" else 22)
+                        tk.field("data", x["rec"], 0xFB, (mkdisc.stamp(8, 3 + k) * 4)[:x["size"]])
+                        tk.gap(10 if enc == "FM" else 24)
+                    tk.gap(40 if enc == "FM" else 80)
+                else:
+                    tk = mkflux.build_track(enc, t, 0, {r: bytes(base_img[(3 * t + r) * 256:(3 * t + r + 1) * 256]) for r in range(3)})
+                tracks.append(mkflux.hfe_side_stream(tk) if fmt.startswith("hfe") else mkflux.cells_to_bytes_msb(tk.cells))
+            p = os.path.join(scratch, "tc%d.%s" % (i, "hfe" if fmt.startswith("hfe") else "mfm"))
+            if fmt.startswith("hfe"):
+                mkflux.write_hfe(p, [tracks], 4, enc)
+            else:
+                mkflux.write_hxcmfm(p, [tracks], 4)
+            evs = []
+            sel = fcmds if (c.get("all_cmds") or i % 5 == 0) else [fcmds[0], fcmds[1 + i % 9], fcmds[1 + (i // 9) % 9]]
+            for cmd in sel:
+                argv = [dfs] + (["--verbose"] if i % 4 == 0 else []) + ["--file", p] + [a.replace("{DEST}", dest) for a in cmd]
+                o = common.run(argv, timeout=20)
+                e = classify(o, argv, "fluxsem:" + fmt, dict(secs=c["secs"], model_accepts=c["accept"]))
+                if cmd == ["type", "A"] or (cmd == ["cat"] and not c.get("all_cmds")):
+                    e["extra"]["accepted"] = o.rc == 0
+                evs.append(e)
+            os.unlink(p)
+            return evs
+        nflux = 0
+        for evs in common.pmap(do_t, list(enumerate(tsel))):
+            events += evs
+            nflux += 1
+        chk.extra["fluxsem_images"] = nflux
+        chk.extra["fluxsem_acceptance_differs_from_model"] = sum(1 for e in events if e["label"].startswith("fluxsem") and "accepted" in e["extra"]
+                                                                 and e["extra"]["accepted"] != e["extra"]["model_accepts"])
+        chk.extra["fluxsem_acceptance_examples"] = [dict(secs=e["extra"]["secs"], model=e["extra"]["model_accepts"], real=e["extra"]["accepted"], err=e["err"][-160:])
+                                                     for e in events if e["label"].startswith("fluxsem") and "accepted" in e["extra"]
+                                                     and e["extra"]["accepted"] != e["extra"]["model_accepts"]][:4]
+        # MMB: every slot status x every command x every drive number the slot and its neighbours map to
+        for st in (0x00, 0x0F, 0xF0, 0xFF, 0x55):
+            slot = bytes(mkdisc.surface_dfs(800, 3, title=b"M", entries=[mkdisc.entry("A", length=300, start=5)]))
+            pm = mkdisc.write(os.path.join(scratch, "st%02x.mmb" % st), mkdisc.container_mmb({0: slot, 1: slot, 2: slot}, status={0: 0x0F, 1: st, 2: 0x00, 3: st}))
+            jobs = []
+            for drv in ("0", "2", "4", "6", "8"):
+                for cmd in (["cat", drv], ["dump-sector", drv, "0", "0"], ["dump-sector", drv, "0", "1"], ["dump-sector", drv, "79", "9"], ["dump-sector", drv, "80", "0"],
+                            ["free", drv], ["--drive", drv, "type", "A"], ["--drive", drv, "sector-map"], ["--drive", drv, "extract-unused", dest],
+                            ["--drive", drv, "space"], ["--drive", drv, "info", "#.*"]):
+                    jobs.append([dfs, "--file", pm] + cmd)
+            jobs.append([dfs, "--file", pm, "show-titles"])
+            jobs.append([dfs, "--file", pm, "--show-config", "cat"])
+            for o, argv in zip(common.pmap(lambda a: common.run(a, timeout=20), jobs), jobs):
+                events.append(classify(o, argv, "mmbslot", dict(status=st)))
         # command lines
         okimg = discs.build("DFS", [mkdisc.entry("A", length=300, start=5)], scratch, "ok", nsectors=400, salt=3, title=b"OKIMG")
         files = dict(ok=okimg.path, missing=os.path.join(scratch, "missing.ssd"), noext=os.path.join(scratch, "noext"),
